@@ -482,4 +482,33 @@ def glue11(ctx: Ctx) -> None:
                    "cache then skips it, and its glue runs only after some unrelated later import", construct="installer returns with glue still pending")
 
 
-C17 = [glue_rules, glue9, glue10, glue11]
+def glue12(ctx: Ctx) -> None:
+    """GLUE-12 the scan iterates over a snapshot of sys.modules: glue functions import modules (their own helpers, the library's
+    submodules), and so do other threads, so iterating the live dict raises `RuntimeError: dictionary changed size during
+    iteration` out of add_glue_as_needed -- which extract() calls outside any handler"""
+    mod = ctx.P.mod("_glue")
+    add = mod.fn("add_glue_as_needed")
+    loops = [s_ for s_ in ast.walk(add) if isinstance(s_, ast.For)]
+    if len(loops) != 1:
+        raise AnalysisError("GLUE-12: the module scan loop of add_glue_as_needed vanished")
+    it = loops[0].iter
+    src = it
+    if isinstance(it, ast.Name):
+        a_ = [x.value for x in ast.walk(add) if isinstance(x, ast.Assign) and len(x.targets) == 1 and norm(x.targets[0]) == it.id]
+        if len(a_) == 1:
+            src = a_[0]
+    txt = norm(src)
+    live = "sys.modules" in txt and not (isinstance(src, ast.Call) and norm(src.func) in ("tuple", "list", "sorted", "set", "frozenset", "dict") and src.args and "sys.modules" in norm(src.args[0])
+                                         and not (isinstance(src.args[0], ast.Call) and norm(src.args[0].func).endswith("islice")))
+    if isinstance(src, ast.Call) and norm(src.func) in ("tuple", "list", "sorted", "set", "frozenset") and src.args and isinstance(src.args[0], ast.Call) and norm(src.args[0].func).endswith("islice"):
+        live = False  # materialised before the loop body runs
+    if "sys.modules" not in txt:
+        ctx.R.undecided("GLUE-12", f"the scan iterates over `{txt[:60]}`")
+    elif live:
+        ctx.R.fail("GLUE-12", mod, loops[0], f"the module scan iterates over `{txt[:60]}`, the live sys.modules (or a lazy view of it), while glue functions run inside the loop: a glue function that imports "
+                   "anything new (or an import on another thread) changes the dict during iteration and RuntimeError escapes from extract()", construct="scan over live sys.modules")
+    else:
+        ctx.R.ok("GLUE-12", f"the scan iterates over a snapshot: {txt[:60]}")
+
+
+C17 = [glue_rules, glue9, glue10, glue11, glue12]
